@@ -46,6 +46,15 @@ def wrapperKind : FieldDecl → Option String
   | .mapAny _ | .mapOf _ _ _ => some "dict"
   | _ => none
 
+/-- the wrapper a field's CURRENT value is stored in: for `AnyOf` / `Optional` it is the wrapper built
+    by the option that holds the value (the first option accepting it), bound - like any other
+    wrapper - to the instance and to the `AnyOf` field itself -/
+def wrapperKindAt (O : Oracles) (fd : FieldDecl) (cur : PyVal) : Option String :=
+  match fd with
+  | .anyOf fs =>
+    (fs.find? (fun f => match validate O f cur with | .ok _ => true | .error _ => false)).bind wrapperKind
+  | _ => wrapperKind fd
+
 /-- apply a native mutator to the payload of a wrapper value -/
 def applyNative (kind : String) (m : NOp) (cur : PyVal) : Except NErr PyVal :=
   match cur with
@@ -143,7 +152,7 @@ def step (tbl : List MethodRec) (O : Oracles) (c : ClassOpts) (fields : List (St
   | .call f m =>
     match lookup f fields, lookup f s with
     | some fd, some cur =>
-      (match wrapperKind fd with
+      (match wrapperKindAt O fd cur with
         | none => (s, .err (.other "AttributeError"))
         | some kind => match findRec tbl kind m.name with
           | none => (s, .err (.other "AttributeError"))
